@@ -4,15 +4,16 @@ HOOKS = {
     "guard": "cfg(kani)",
     "enable": "set automatically (and only) by kani-compiler when the harness crates under /verif/harness are built with `cargo kani`; cargo build/test never set it",
     "baseline_off_cmd": "cd /repo && (cargo nextest run --workspace --no-fail-fast --test-threads 8 --offline || cargo test --workspace --no-fail-fast --offline)",
-    "source_commits": ["b6c0ba7", "f428fc8", "cd0cc3b", "9f13681", "1235390"],
+    "source_commits": ["b6c0ba7", "f428fc8", "cd0cc3b", "9f13681", "1235390", "5145c3a"],
     "add_only": True,
 }
 
 NOTES = ("All checks are bounded symbolic execution of /repo's compiled code with Kani (CBMC + CaDiCaL); bounds and what lies "
          "outside them are in each evidence file and in DESIGN.md. Exit 2 = inconclusive (never a pass). "
-         "fix: commits in /repo (3471e8e C20, 477dd88 C07, 978ab72 C19) are listed in known-findings.txt. "
-         "12 properties are claimed; for C02, C05, C06, C10, C12, C13 and C15 only the synchronous seam of the property is decided (stated in each level_claimed.text) - "
-         "the async loops behind them are out of reach (measured, DESIGN.md section 5). 8 properties are not applicable.")
+         "fix: commits in /repo (3471e8e C20, 477dd88 C07, 978ab72 C19, 12550b0 C10) are listed in known-findings.txt. "
+         "12 properties are claimed; for C02, C05, C12 and C13 only the synchronous seam of the property is decided, for C06, C10 and C15 the seam plus one real async function each "
+         "(PriorityReceiver::recv through its select!, the error_hook task loop) polled by the harness over the tokio model (stated in each level_claimed.text); "
+         "the job task and the event workers are out of reach (measured, DESIGN.md section 5). 8 properties are not applicable.")
 
 ASYNC = ("decided only by the job-task / worker `async` state machines; Kani encodes coroutine state as a union, CBMC loses every "
          "constant stored across an `.await`, and the real future did not finish symbolic execution in 30 min even for one concrete "
@@ -48,12 +49,12 @@ CHECKS = {
         "note": "Trusted: Kani/CBMC/CaDiCaL; hook watchexec_cli::verif (cfg(kani)) incl. baseline argument values standing in for clap's defaults; stubs catch_unwind, patched backtrace crate (compile fix). Not covered: the action closure in cli::config::make_config (async, job control), --postpone, queue/restart/signal run behaviour.",
     },
     "C06": {
-        "text": "Only the synchronous seam of the grace timer is decided: Timer::stop / Timer::restart compute deadline = now + grace exactly; the timer is not past at any instant before the deadline and past from the deadline on (symbolic creation and query times, grace 0 included); the forced control produced at expiry is Stop resp. ContinueTryGracefulRestart and carries the timer's own flag; PriorityReceiver::recv returns that control first when the timer has expired (even with urgent/high/normal controls queued), clears the timer and leaves the queues untouched, and lets urgent and high controls through while a timer is armed; stop_with_signal / restart_with_signal / try_restart_with_signal enqueue exactly [GracefulStop{signal, grace}(, Start)] / TryGracefulRestart on the normal queue. What the job task does with these (signal first, kill at expiry, one respawn) is NOT decided.",
+        "text": "The grace timer and the REAL async PriorityReceiver::recv (all of it, including both select! blocks, polled by the harness over the tokio model with a virtual clock) are decided; the job task is not. Timer::stop / Timer::restart compute deadline = now + grace exactly; the timer is not past at any instant before the deadline and past from the deadline on (symbolic creation and query times, grace 0 included); the forced control produced at expiry is Stop resp. ContinueTryGracefulRestart and carries the timer's own flag; PriorityReceiver::recv returns that control first when the timer has expired (even with urgent/high/normal controls queued), clears the timer and leaves the queues untouched, lets urgent and high controls through while a timer is armed, and while the timer is armed and not expired a queued NORMAL control is held back (recv stays Pending, the control is not consumed, the timer stays); a recv parked in its select! is not woken one nanosecond before the deadline, is woken at the deadline, and then yields the forced control with the timer's flag (same future or a fresh call), clearing the timer and leaving the normal control queued; stop_with_signal / restart_with_signal / try_restart_with_signal enqueue exactly [GracefulStop{signal, grace}(, Start)] / TryGracefulRestart on the normal queue. What the job task does with these (signal first, kill at expiry, one respawn) is NOT decided.",
         "design_ref": "4/C06",
-        "note": "Trusted: Kani/CBMC/CaDiCaL; models/tokio virtual clock; hooks Timer::verif_* (cfg(kani)). Not covered: supervisor::job::task (async), recv paths that reach select! (armed timer with only normal controls pending).",
+        "note": "Trusted: Kani/CBMC/CaDiCaL; models/tokio virtual clock; hooks Timer::verif_* (cfg(kani)). Not covered: supervisor::job::task (async: signal delivery, kill and reap at expiry, exactly one respawn), times other than the concrete NOW/deadline pair in the recv scenarios (the boundary itself is symbolic in the Timer harnesses), grace = Duration::MAX (Instant + Duration overflow is the model's arithmetic here, not std's).",
     },
     "C10": {
-        "text": "Send side, complete for single calls: each of the 20 public Job methods enqueues exactly its documented controls, in order, on the documented queue (delete_now: urgent; to_wait: high; everything else normal) and nothing elsewhere; two successive calls (25 pairs of 5 representative methods) stay in call order per queue and do not resolve each other's tickets. Receive side, for the states decided before recv's select!: urgent before high before normal, FIFO within urgent, expired timer first. NOT decided: recv paths through select! (only normal controls pending; wake-up after Pending) and what the job task executes.",
+        "text": "Send side, complete for single calls: each of the 20 public Job methods enqueues exactly its documented controls, in order, on the documented queue (delete_now: urgent; to_wait: high; everything else normal) and nothing elsewhere; two successive calls (25 pairs of 5 representative methods) stay in call order per queue and do not resolve each other's tickets. Receive side = the REAL async PriorityReceiver::recv including both select! blocks, polled by the harness over the tokio model: urgent before high before normal and FIFO within a queue, both when the controls are already queued when recv is called and when they arrive while recv is parked in its select! (every start index of the re-poll); normal controls come out in send order through select!; nothing is returned from empty queues; an armed timer holds normal controls back; an expired timer wins. (The parked case found a genuine defect - random select! start returned a normal control before a pending urgent one - fixed in /repo 12550b0.) NOT decided: what the job task executes with the controls it receives, concurrent senders on real threads.",
         "design_ref": "4/C10",
         "note": "Trusted: Kani/CBMC/CaDiCaL; models/tokio mpsc ring and wakers; hook job_from_parts (cfg(kani)). Sequential: no concurrent senders on real threads.",
     },
@@ -68,9 +69,9 @@ CHECKS = {
         "note": "Trusted: Kani/CBMC/CaDiCaL; no-op tracing model; hook config_change_signal; stub Box::write -> ptr::write. Sequential execution of RwLock/Notify. Not covered: lib::sources::fs worker, ConfigWatched::next, watch/unwatch failures.",
     },
     "C15": {
-        "text": "Only the hand-over seam is decided: for one runtime error, the body of error_hook's loop (ErrorHook::new -> handler.call -> ErrorHook::handle_crit) calls the installed handler exactly once with that error; ignore gives Ok; elevate() ends with CriticalError::Elevated carrying the SAME runtime error; critical(c) ends with c; a handler that keeps the hook alive yields Ok as documented. 8 payload-light RuntimeError variants (signal numbers / message bytes symbolic). Delivery through the channels and containment in the workers are NOT decided.",
+        "text": "Decided: (a) the REAL async error_hook task (its whole `while let Some(err) = errors.recv().await` loop, polled by the harness over a model mpsc channel) with two queued runtime errors: each is handed to the handler exactly once, in order; ignoring them keeps the task running (Ok when the channel closes); elevating the second ends the task with Elevated carrying the SECOND error even when the handler kept the first hook alive; elevating the first ends the task at once and the second is never handed over; (b) for one runtime error, the body of error_hook's loop (ErrorHook::new -> handler.call -> ErrorHook::handle_crit) calls the installed handler exactly once with that error; ignore gives Ok; elevate() ends with CriticalError::Elevated carrying the SAME runtime error; critical(c) ends with c; a handler that keeps the hook alive yields Ok as documented. 8 payload-light RuntimeError variants (signal numbers / message bytes symbolic). How errors get INTO the channel (worker / fs worker / action worker send sites) and containment in those workers are NOT decided.",
         "design_ref": "4/C15",
-        "note": "Trusted: Kani/CBMC/CaDiCaL; no-op tracing model; hooks watchexec::verif::{hook_new, hook_crit_cell, hook_handle_crit}; stub Box::write -> ptr::write. Not covered: async send sites and the error channel, io::Error / notify::Error payloads, main-task termination.",
+        "note": "Trusted: Kani/CBMC/CaDiCaL; no-op tracing model; hooks watchexec::verif::{hook_new, hook_crit_cell, hook_handle_crit, error_hook_task}; models/tokio-full mpsc for the loop harnesses; stub Box::write -> ptr::write. Not covered: async send sites of the error channel, io::Error / notify::Error payloads, main-task termination.",
     },
     "C07": {
         "text": "Bounded, solver-decided: every public ticket-returning Job method returns a ticket that shares the done flag of exactly the LAST control it enqueued and the job's gone flag (pending until one of them is raised, not resolved by an earlier control of a multi-control operation, already resolved and nothing enqueued on a dead job); and 3 waiter tasks polling clones of one flag / clones of one ticket / two tickets of one job in every interleaving of 3 poll slots (re-polls included), then the control's flag or the job-gone flag is raised; every parked waiter must have been woken and every clone resolves. This is the wake-up half of the property (where the genuine lost-wake-up defect was found and fixed); the task-level half (which controls raise which flag, graceful-stop timing, failures) is not covered.",
@@ -78,14 +79,14 @@ CHECKS = {
         "note": "Trusted: Kani/CBMC/CaDiCaL; models/tokio waker identities and poll helper; hook watchexec_supervisor::verif (cfg(kani)). Sequential execution: atomics/Mutex are run without thread interleavings. Not covered: supervisor::job::task (async, out of reach) - so a mutation that forgets to raise a control's flag in task.rs is NOT detected.",
     },
     "C16": {
-        "text": "Bounded, solver-decided at the serde data-model level: Tag <-> SerdeTag identity for every non-fs tag kind over full integer ranges; documented field placement; all 41 filesystem event kinds through their wire names (format half with real core::fmt + parse half, sharing one table); totality of the wire->Tag conversion over every kind x field-presence mask x integer payload (same kind or Unknown, NonZero invariants); Signal <-> SerdeSignal both ways; plus the JSON shape (field names, order, omitted fields, every unit-variant spelling) captured from the real derive(Serialize) with a recording Serializer, and 16 concrete JSON tag objects (well-formed in any field order / with unknown fields; degraded: missing, foreign, contradictory fields) driven through the real derive(Deserialize).",
+        "text": "Bounded, solver-decided at the serde data-model level: Tag <-> SerdeTag identity for every non-fs tag kind over full integer ranges; documented field placement; all 41 filesystem event kinds through their wire names (format half with real core::fmt + parse half, sharing one table); totality of the wire->Tag conversion over every kind x field-presence mask x integer payload (same kind or Unknown, NonZero invariants); Signal <-> SerdeSignal both ways; plus the JSON shape (field names, order, omitted fields, every unit-variant spelling) captured from the real derive(Serialize) with a recording Serializer, and 16 concrete JSON tag objects (well-formed in any field order / with unknown fields; degraded: missing, foreign, contradictory fields) driven through the real derive(Deserialize); Event level: tag vectors of 0..=3 cheap tags keep number, order and duplicates, and the tagless event serialises to an object without fields that parses back to the empty event.",
         "design_ref": "4/C16",
-        "note": "Trusted: Kani/CBMC/CaDiCaL; hooks watchexec_events::verif / watchexec_signals::verif (cfg(kani)). Not covered: serde_json itself (tokenising, escaping, number printing; the harnesses stand in for it), Event-level vectors and metadata maps (HashMap), non-UTF-8 paths, parse scenarios beyond the 16 objects. In the quick tier 2 of the 6 format-half ranges run (14 kinds); all 41 in thorough.",
+        "note": "Trusted: Kani/CBMC/CaDiCaL; hooks watchexec_events::verif / watchexec_signals::verif (cfg(kani)). Not covered: serde_json itself (tokenising, escaping, number printing; the harnesses stand in for it), non-empty metadata maps (HashMap with ONE concrete entry: no symbolic-execution result in 700-900 s, hashbrown SIMD group scans), Event-level vectors of path / fs tags, non-UTF-8 paths, parse scenarios beyond the 16 objects. In the quick tier 2 of the 6 format-half ranges run (14 kinds); all 41 in thorough.",
     },
     "C18": {
-        "text": "Bounded, solver-decided for both branches of Command::to_spawnable: Program::Exec hands the process layer exactly [program, args...] byte for byte (0..=3 arguments of 0..=2 symbolic ASCII bytes incl. every metacharacter/whitespace/quote/control byte, plus a multi-byte argument); Program::Shell is invoked as shell prog, options.., program option, command string, extra args.. in exactly that order, one argv element each, byte for byte (0..=2 options, program option absent / borrowed / owned, 0..=2 extra args incl. an empty one, 3 length patterns of which one in quick); exactly the wrappers {KillOnDrop} + {Session | Group} + {ResetSigmask} for all 8 option combinations; and the CLI's interpret_command_args: --no-shell / --shell=none give Exec with the words unchanged, --shell=sh gives Shell{sh, -c, words joined by single spaces}, --shell='' is an error, --wrap-process maps to grouped / session.",
+        "text": "Bounded, solver-decided for both branches of Command::to_spawnable: Program::Exec hands the process layer exactly [program, args...] byte for byte (0..=3 arguments of 0..=2 symbolic ASCII bytes incl. every metacharacter/whitespace/quote/control byte, plus a multi-byte argument); Program::Shell is invoked as shell prog, options.., program option, command string, extra args.. in exactly that order, one argv element each, byte for byte (0..=2 options, program option absent / borrowed / owned, 0..=2 extra args incl. an empty one, 3 length patterns of which one in quick); exactly the wrappers {KillOnDrop} + {Session | Group} + {ResetSigmask} for all 8 option combinations; and the CLI's interpret_command_args: --no-shell / --shell=none give Exec with the words unchanged, --shell=sh gives Shell{sh, -c, words joined by single spaces}, a multi-word --shell ('bash  -e<TAB>-u') gives prog = first word, options = the rest in order, -c; --shell='' is an error, --wrap-process maps to grouped / session. Program names, shell programs and program options made of arbitrary non-NUL bytes (non-UTF-8 included) are passed byte for byte.",
         "design_ref": "4/C18",
-        "note": "Trusted: Kani/CBMC/CaDiCaL; models/tokio process::Command and models/process-wrap (recorders). Hook watchexec_cli::verif (cfg(kani)). Stub MaybeUninit::write -> ptr::write in the shell harnesses. Not covered: exec fidelity below tokio::process::Command (what std and the kernel do with the argv, pgid/sid of a real child), spawn-hook env/cwd, shells taken from $SHELL and multi-word --shell values, strings longer than 3 bytes.",
+        "note": "Trusted: Kani/CBMC/CaDiCaL; models/tokio process::Command and models/process-wrap (recorders). Hook watchexec_cli::verif (cfg(kani)). Stub MaybeUninit::write -> ptr::write in the shell harnesses. Not covered: exec fidelity below tokio::process::Command (what std and the kernel do with the argv, pgid/sid of a real child), spawn-hook env/cwd, shells taken from $SHELL (getenv FFI), strings longer than 3 bytes (symbolic) resp. the concrete examples.",
     },
     "C19": {
         "text": "Solver-decided over full ranges: Signal::from(i32) vs to_nix for all 2^32 numbers, POSIX numbers of the first-class signals, to_nix/from_nix round trip for every Signal value, ProcessEnd::from(ExitStatus) for all 2^32 raw wait statuses (exit code, terminating signal with/without core bit, stopped, continued, never the unreachable!), ProcessEnd -> ExitStatus -> ProcessEnd for Success / ExitError(1..=255) / ExitSignal(valid). Names (real from_unix_str / from_windows_str / FromStr / Display): every one of the 31 Linux signals in the spellings NAME, SIGNAME and number in every letter case parses to that OS signal (FromStr: except the documented Windows control names, which win - STOP is ForceStop); all 13 Windows control names in every case; conversely EVERY ASCII string of length 1..=10 is accepted exactly when the documented grammar says so and never panics; Display of the first-class signals is SIGxxx, of Custom(n) the number, and both parse back to the same OS signal.",
